@@ -123,9 +123,25 @@ Theorem C19_future_moved_from_refuted : forall k, k <> C19_BValue ->
 Proof. exact P_future_move_refuted. Qed.
 Print Assumptions C19_future_moved_from_refuted.
 
+(* MPIFuture<T>(true) - valid, value-initialised, no request - behaves like a completed operation delivering T();
+   histories may contain get_send_data (C19_SendData, which behaves like wait) and move assignment *)
+Theorem C19_future_prevalid : forall (D : Type) (deqb : D -> D -> bool), (forall d, deqb d d = true) ->
+  forall (k : c19_bkind) (v : D) (h : list c19_fev), c19_no_move h ->
+  c19_spec_accept deqb v false true false (c19_ftrace c19_cfg_fixed k v h (c19_fut_prevalid v)) = true.
+Proof. exact P_future_prevalid. Qed.
+Print Assumptions C19_future_prevalid.
+
+(* operator=(MPIFuture&&) swaps: after  F d; d = std::move(f);  f is invalid for EVERY buffer kind (unlike the move
+   constructor, F-C19-2), and d carries f's state *)
+Theorem C19_future_move_assign : forall (D : Type) (cfg : c19_cfg) (k : c19_bkind) (v : D) (f : c19_fut D),
+  fst (c19_fstep cfg k v C19_MoveAssign f) = [C19_TOp C19_MoveAssign (C19_RBool false)] /\
+  snd (c19_fstep cfg k v C19_MoveAssign f) = f.
+Proof. exact P_future_move_assign. Qed.
+Print Assumptions C19_future_move_assign.
+
 (* PseudoFuture (Communication<No_Comm>): same specification, ready at once *)
 Theorem C19_pseudofuture : forall (D : Type) (deqb : D -> D -> bool), (forall d, deqb d d = true) ->
-  forall (v : D) (valid0 : bool) (ops : list c19_fop), Forall (fun o => o <> C19_Move) ops ->
+  forall (v : D) (valid0 : bool) (ops : list c19_fop), Forall (fun o => In o [C19_Valid; C19_Ready; C19_Wait; C19_Get]) ops ->
   let tr := c19_ptrace ops (C19_mkpfut valid0 v) in
   c19_spec_accept deqb v (negb valid0) true false tr = true /\
   c19_count_data tr <= (if valid0 then 1 else 0) /\ c19_all_data_is deqb v tr = true.
